@@ -13,11 +13,10 @@ def main():
     tier = a.tier or os.environ.get('VERIF_TIER') or 'quick'
     if tier not in ('quick', 'thorough'):
         tier = 'quick'
-    mods = {'C11': 'status', 'C12': 'status'}
-    if a.pid not in mods:
+    if not os.path.exists(os.path.join(os.path.dirname(os.path.abspath(__file__)), 'p_%s.py' % a.pid)):
         print('unknown property', a.pid)
         return 2
-    mod = __import__(mods[a.pid])
+    mod = __import__('p_' + a.pid)
     try:
         if a.replay:
             return mod.replay(a.pid, a.replay)
